@@ -79,7 +79,7 @@ def gen_cases(tier, seed):
         solver = str(rng.choice(["nonlinear_roots", "nonlinear_roots", "hybrj", "newtontrustregion"]))
         dtype = str(rng.choice(["float64", "longdouble"]))
         cases.append(dict(kind="solve", solver=solver, dtype=dtype, fam=FAMILIES[i % len(FAMILIES)], n=n, shape=list(shape), jac=bool(rng.random() < 0.6) or solver == "hybrj",
-                          guess=str(rng.choice(["good", "bad", "far"])), tol=str(rng.choice(["none", "1e-10", "1e-6"])), pseed=int(rng.integers(1 << 30)),
+                          guess=str(rng.choice(["good", "bad", "far", "huge"])), tol=str(rng.choice(["none", "1e-10", "1e-6"])), pseed=int(rng.integers(1 << 30)),
                           cost=1 + n / 3.0 + (4 if dtype == "longdouble" else 0)))
     for i in range(6 if tier == "quick" else 60):
         cases.append(dict(kind="insitu", method=str(rng.choice(["RadauIIA5", "GaussLegendre4", "BackwardEuler", "LobattoIIIC4", "CrankNicolson"])),
@@ -95,7 +95,7 @@ def run_case(spec):
     dt = dtype_of(spec["dtype"])
     S = System(spec["fam"], spec["n"], spec["shape"], spec["pseed"], dt)
     rng = rng_for(1503, spec["pseed"])
-    off = {"good": 0.05, "bad": 1.5, "far": 25.0}[spec["guess"]]
+    off = {"good": 0.05, "bad": 1.5, "far": 25.0, "huge": 1e6}[spec["guess"]]
     x0 = (S.xs + off * rng.uniform(-1, 1, S.n)).astype(dt).reshape(S.shape)
     tol = None if spec["tol"] == "none" else float(spec["tol"])
     tol_eff = float(D.tol_epsilon(dt)) if tol is None else tol
